@@ -178,6 +178,15 @@ func (p *Path) binop(fr *frame, op token.Token, xt types.Type, x, y Value, yt ty
 	case token.SUB:
 		return tb.BVSub(a, b)
 	case token.MUL:
+		// a symbolic factor times a large constant makes 64-bit multiplier/divider circuits the
+		// solver cannot handle: case-split the symbolic factor over its feasible values instead.
+		if w == 64 && !p.E.Cfg.NoBigMulSplit {
+			if a.c && !b.c && bigConst(a) {
+				b = BVConst(uint64(p.concretize(b, signed, fr, pos)), w)
+			} else if b.c && !a.c && bigConst(b) {
+				a = BVConst(uint64(p.concretize(a, signed, fr, pos)), w)
+			}
+		}
 		return tb.BVMul(a, b)
 	case token.QUO, token.REM:
 		z := tb.Eq(b, BVConst(0, w))
@@ -210,6 +219,14 @@ func (p *Path) binop(fr *frame, op token.Token, xt types.Type, x, y Value, yt ty
 		return tb.BVLe(b, a, signed)
 	}
 	panic("engine: binop " + op.String())
+}
+
+func bigConst(t *Term) bool {
+	v := sext64(t.u, t.S.W)
+	if v < 0 {
+		v = -v
+	}
+	return v >= 1<<24
 }
 
 // strLess: lexicographic byte order (Go string comparison).
